@@ -112,6 +112,11 @@ def run(tier):
             orders = ORDERS if tier == "thorough" else rnd.sample(ORDERS[:8], 2) + rnd.sample(ORDERS[8:12], 1) + rnd.sample(ORDERS[12:], 1)
             for order in orders:
                 cases.append((fname + "/" + sname, b, order))
+    # every intact file with one short read (not at the end of the file) on the 2nd / 3rd read of a whole-data validation
+    for (fname, buf) in base_files(random.Random(common.seed())):
+        for j in (2, 3):
+            for order in (("validate_data",), ("validate_checksums", "validate_data"), ("validate_data", "find_valid")):
+                cases.append((fname + "/intact#short%d" % j, buf, order))
     scripts = []; meta = []
     for i, (name, b, order) in enumerate(cases):
         cid = "s%d" % i
@@ -142,12 +147,25 @@ def run(tier):
             psz = [max(1, min(sizes[0], total // 3))] if sizes else []
             sizes = psz + sizes
             lines += ["read 0 %d" % n for n in sizes[:1]]; sizes = sizes[1:]
+        capped = ((i % 6 == 5) or "#short" in name) and not rfirst and not pfirst and not detached
+        if capped:
+            # while the validations run, read(2) delivers the file in short pieces (a pipe, a network file system, a signal);
+            # their verdicts are then not judged, but the read that follows - with the kernel behaving again - must still return
+            # the same content and verdict as a read without them
+            if "#short" in name:
+                lines.append("shim_fault_next r 0 -7 %s" % name.split("#short")[1])
+            elif (i // 6) % 2:
+                lines.append("shim_cap 0 %d" % (7, 1000, 20000)[(i // 12) % 3])
+            else:
+                lines.append("shim_fault_next r 0 -7 %d" % (2 + (i // 12) % 3))      # only the 2nd / 3rd / 4th read from here on is short
         lines += ["%s 0" % o for o in order if o not in ("R", "P")]
+        if capped:
+            lines.append("shim_cap 0 0")
         if not detached and not rfirst:
             lines += ["read 0 %d" % n for n in sizes] + ["close 0"]
         lines += ["end"]
         scripts.append("\n".join(lines) + "\n")
-        meta.append((cid, name, path, sinkA, sinkB, rf, order, sha(path)))
+        meta.append((cid, name + (" (validations under short reads)" if capped else ""), path, sinkA, sinkB, rf, order, sha(path)))
     nproc = 12
     parts = ["".join(scripts[i::nproc]) for i in range(nproc)]
     evs = [e for part in common.run_driver_parallel(parts, "plain", timeout=2400) for e in part]
@@ -176,6 +194,8 @@ def run(tier):
             if e["op"] == "init_read":
                 trace.append({"op": "open", "f": ff, "ret": e["ret"]}); owner.append(cid)
                 opened = e["ret"] == 1
+            elif "under short reads" in name and e["op"] in ("validate_checksums", "find_valid", "validate_data"):
+                pass
             elif e["op"] in ("validate_checksums", "find_valid"):
                 if opened:
                     trace.append({"op": "scan", "call": e["op"], "ret": e["ret"], "vec": e.get("valid", []), "es": es}); owner.append(cid)
